@@ -370,6 +370,16 @@ func runHarness(ld *Loaded, cfg Config, pkg *ssa.Package, fn *ssa.Function, work
 				for _, s := range res.Incon {
 					uniq(&hr.Incon, s)
 				}
+				if pl := os.Getenv("SYMGO_PATHLOG"); pl != "" {
+					if f, err := os.OpenFile(pl, os.O_APPEND|os.O_CREATE|os.O_WRONLY, 0o644); err == nil {
+						var pcs []string
+						for _, c := range e.pc {
+							pcs = append(pcs, c.String())
+						}
+						fmt.Fprintf(f, "%s\t%s\t%s\n", res.Outcome, decString(e.taken), strings.Join(pcs, " & "))
+						f.Close()
+					}
+				}
 				switch res.Outcome {
 				case "truncated":
 					uniq(&hr.Truncated, res.Reason)
